@@ -175,7 +175,10 @@ func checkC05(r *core.Run) {
 		}
 		info := fn.Pkg.TypesInfo
 		key := core.ShortKey(fn.Obj)
-		sp := &flow.Spec{W: w, Depth: 0, Classify: func(pkg *packages.Package, call *ast.CallExpr, callee *types.Func) []flow.Tag {
+		// (paths that differ in the outcome of the user method are kept apart where they meet again — a status
+		// assigned per outcome to a named result and returned by one return statement — and the closures deferred
+		// for logging run at the exits)
+		sp := &flow.Spec{W: w, Depth: 0, Split: []flow.Tag{"ok:action", "fail:action"}, Classify: func(pkg *packages.Package, call *ast.CallExpr, callee *types.Func) []flow.Tag {
 			switch {
 			case isTPA(callee, ph.action):
 				return []flow.Tag{"action"}
@@ -605,6 +608,30 @@ func c05Ctx(r *core.Run, fn *core.FuncInfo, action string) {
 			})
 		}
 	}
+	// (the literal may start with a fresh empty map and the decoded value be assigned to the field afterwards)
+	if !strings.Contains(ac, "const:ActionContext") && (strings.HasPrefix(ac, "call:builtin:make(") || strings.HasPrefix(ac, "lit:")) {
+		ast.Inspect(builder.Decl.Body, func(n ast.Node) bool {
+			as, ok := n.(*ast.AssignStmt)
+			if !ok || len(as.Lhs) != len(as.Rhs) {
+				return true
+			}
+			for i, l := range as.Lhs {
+				sel, ok := ast.Unparen(l).(*ast.SelectorExpr)
+				if !ok || sel.Sel.Name != "ActionContext" {
+					continue
+				}
+				if t := builder.Pkg.TypesInfo.TypeOf(sel.X); t == nil || !strings.HasSuffix(t.String(), "tm.BusinessActionContext") {
+					continue
+				}
+				originFollowHelpers, originFollowSingle = true, true
+				if o := origin(builder, as.Rhs[i], 5); strings.Contains(o, "const:ActionContext") {
+					ac = o
+				}
+				originFollowHelpers, originFollowSingle = false, false
+			}
+			return true
+		})
+	}
 	r.Check(strings.Contains(ac, "[const:ActionContext]") || strings.Contains(ac, "const:ActionContext"), "C05.ctx", bk+"ActionContext", w.Pos(lit.Pos()), "ActionContext derives from the decoded application data", "ActionContext derives from "+ac)
 	// the object handed to the user's commit / rollback method belongs to that request: none of the values that can
 	// end up in a reference-typed field of it is a package-level variable (the default for "no action context sent"
@@ -622,6 +649,25 @@ func c05Ctx(r *core.Run, fn *core.FuncInfo, action string) {
 			}
 		}
 	}
+	ast.Inspect(builder.Decl.Body, func(n ast.Node) bool {
+		as, ok := n.(*ast.AssignStmt)
+		if !ok || len(as.Lhs) != len(as.Rhs) {
+			return true
+		}
+		for i, l := range as.Lhs {
+			sel, ok := ast.Unparen(l).(*ast.SelectorExpr)
+			if !ok {
+				continue
+			}
+			if t := builder.Pkg.TypesInfo.TypeOf(sel.X); t == nil || !strings.HasSuffix(t.String(), "tm.BusinessActionContext") {
+				continue
+			}
+			if v := sharedVarIn(w, builder, as.Rhs[i], 0, map[types.Object]bool{}); v != nil && shared == "" {
+				shared = sel.Sel.Name + " can be the package-level variable " + v.Name()
+			}
+		}
+		return true
+	})
 	r.Sites++
 	r.Check(shared == "", "C05.ctx", bk+"reference fields are this request's own", w.Pos(lit.Pos()), "fresh or decoded values only",
 		shared+": every phase-two request that takes this path hands the same object to the user's method; what one commit / rollback writes into it is part of the action context the next one sees (and concurrent requests write one map)")
